@@ -439,6 +439,27 @@ def check(repo: Repo, run: Run) -> None:
         for name, val in ci.members:
             if name in darwin.ALL:
                 n_known += 1
+                if not isinstance(val, int):
+                    # the member's value is not a number this analysis can evaluate.  Taken from a module outside the package
+                    # (`MSG_EOR = socket.MSG_EOR`) it is whatever the machine running the tool defines: reported.  Computed
+                    # inside the package in a way that is not followed: undecided.
+                    ext = None
+                    for st_ in ci.node.body:
+                        if isinstance(st_, ast.Assign) and any(isinstance(t_, ast.Name) and t_.id == name for t_ in st_.targets):
+                            for x in ast.walk(st_.value):
+                                if isinstance(x, (ast.Attribute, ast.Name)) and isinstance(getattr(x, "ctx", None), ast.Load):
+                                    dn = repo.dotted(ci.module, x)
+                                    if dn and "." in dn and not dn.startswith("pykdebugparser.") and (dn.split(".")[0] in set(ci.module.imports.values()) | set(ci.module.imports)):
+                                        ext = dn
+                    if ext is None:
+                        run.floor_failures.append(f"C11/R1: the value of {ci.name}.{name} is computed in a way this analysis does not "
+                                                  f"evaluate: whether it is Darwin's {darwin.ALL[name]:#x} is not decided")
+                        continue
+                    run.ob("R1", ci.module.name, ci.name, name, False,
+                           f"{ci.name}.{name} is not given as a number (its value is computed or imported): the names of a flag word "
+                           f"must carry Darwin's values ({darwin.HEADER_OF[name]}: {darwin.ALL[name]:#x}) on every host",
+                           facts={"header": darwin.HEADER_OF[name]}, line=ci.node.lineno)
+                    continue
                 ok = val == darwin.ALL[name]
                 run.ob("R1", ci.module.name, ci.name, name, ok,
                        "" if ok else f"{ci.name}.{name} = {val:#x} but Darwin's {darwin.HEADER_OF[name]} defines {darwin.ALL[name]:#x}",
